@@ -185,7 +185,7 @@ pub fn parse(
 ) -> Result<Option<ParsedData>, ParseError> {
     // We will only produce output for files that contain the `#[typeshare]`
     // attribute, so this is a quick and easy performance win
-    if !parse_file_context.source_code.contains("#[typeshare") {
+    if !parse_file_context.source_code.contains("typeshare") {
         return Ok(None);
     }
 
